@@ -29,8 +29,11 @@ import builtins
 
 GENERIC = 'E'                                   # `raise E(a)`: some exception, the decision vector says which class
 LOCAL_CLASSES = ['E', 'E0', 'E1', 'E2', 'E3']   # defined in every instrumented copy (subclasses of Exception)
+BASE_ONLY = ['BX', 'KeyboardInterrupt', 'SystemExit', 'GeneratorExit']   # BaseException but not Exception: the copy defines
+                                                # PRIVATE classes of these names (a real KeyboardInterrupt / SystemExit is
+                                                # never raised inside the harness process)
 KNOWN = {n for n in dir(builtins) if isinstance(getattr(builtins, n), type) and issubclass(getattr(builtins, n), BaseException)}
-KNOWN |= set(LOCAL_CLASSES)
+KNOWN |= set(LOCAL_CLASSES) | set(BASE_ONLY)
 
 
 def type_names(t):
@@ -231,6 +234,8 @@ def instrument(fn, ser):
     if concrete:
         for c in LOCAL_CLASSES:
             g.w(0, 'class %s(Exception): pass' % c)
+        for c in BASE_ONLY:
+            g.w(0, 'class %s(BaseException): pass' % c)
         g.w(0, 'class UExc__(Exception): pass')
         g.w(0, 'class UBase__(BaseException): pass')
         # the universe a generic raise chooses from: the classes the handlers name, and one ordinary / one base-only class
@@ -266,6 +271,7 @@ class Tracer:
         self.wtaken = []        # the same run as decisions of the Lean walk (handler choices instead of raised classes)
         self.frozen = False
         self.cur = None
+        self.raised = []        # every exception object this run raised (one may outlive a later one)
         self.universe = universe
         self.max_probes = max_probes
         self.overflow = False
@@ -325,6 +331,7 @@ class Tracer:
             self.cur = cls()
         except TypeError:
             self.cur = cls.__new__(cls)
+        self.raised.append(self.cur)
         return self.cur
 
     def cm(self):
@@ -341,6 +348,7 @@ class Tracer:
             if has_final:
                 break
         self.cur = _Raise(target)
+        self.raised.append(self.cur)
         return self.cur
 
     def h(self, tid, k):
@@ -369,8 +377,10 @@ def run(fn_obj, decisions):
         fn_obj(t)
         out = 'exempt' if t.frozen else 'completed'
     except BaseException as e:
-        if e is not t.cur:
-            raise
+        if not any(e is x for x in t.raised):
+            if isinstance(e, Exception):
+                raise
+            raise RuntimeError('instrumented copy raised %r' % (e,))    # never let a BaseException leave the harness
         out = 'exempt' if t.frozen else 'raise'
     if t.overflow:
         out = 'overflow'
